@@ -274,28 +274,45 @@ func c12Run(c *sink, cs *c12Case, everyStep bool) (*c12Result, bool) {
 		return res, false
 	}
 	pl, cm := r.StoreIDStrings()
-	why, unjust := StoreLinearizable(r.History, obs, pl, cm)
-	if why != "" && os.Getenv("C12_DEBUG") != "" {
-		for _, h := range r.History {
-			fmt.Fprintf(os.Stderr, "%+v\n", *h)
-		}
-		fmt.Fprintf(os.Stderr, "%+v\n", obs)
-		for _, l := range r.RenderTrace() {
-			fmt.Fprintln(os.Stderr, l)
-		}
-	}
-	if why != "" {
-		key := "C12:lin:" + c12LinClass(why)
-		if StoreLinearizableModuloRemovedPool(r.History, obs, pl, cm) {
-			key = "C12:lin:commit-into-removed-pool"
-		}
-		c.Fail("oracle", key, "history is not linearizable: "+why, replay())
+	if why := StoreChainOracle(r.History, obs, pl); why != "" {
+		c.Fail("oracle", "C12:chain:exactly-once", why, replay())
 		return res, false
 	}
-	if unjust != "" {
-		c.Stat("lin:failure-class-not-sequential")
+	if StoreSpecable(cs.Clients) {
+		why, unjust := StoreLinearizable(r.History, obs, pl, cm)
+		if why != "" && os.Getenv("C12_DEBUG") != "" {
+			for _, h := range r.History {
+				fmt.Fprintf(os.Stderr, "%+v\n", *h)
+			}
+			fmt.Fprintf(os.Stderr, "%+v\n", obs)
+			for _, l := range r.RenderTrace() {
+				fmt.Fprintln(os.Stderr, l)
+			}
+		}
+		if why != "" {
+			key := "C12:lin:" + c12LinClass(why)
+			if StoreLinearizableModuloRemovedPool(r.History, obs, pl, cm) {
+				key = "C12:lin:commit-into-removed-pool"
+			}
+			c.Fail("oracle", key, "history is not linearizable: "+why, replay())
+			return res, false
+		}
+		if unjust != "" {
+			c.Stat("lin:failure-class-not-sequential")
+		}
+	} else {
+		c.Stat("runs-with-merge/delete-where/vector-add(chain+readability+warm oracles)")
 	}
 	res.completed = true
+	if !StoreOpsModelled(cs.Clients) {
+		for k := range cs.Clients {
+			if d := r.CompareHandleWithCold(k); d != "" {
+				c.Fail("oracle", "C12:warm:final", d, replay())
+				return res, false
+			}
+		}
+		return res, true
+	}
 	// correspondence with the model
 	if diff, req := c.Compare(r, cs.Fill); diff != "" {
 		c.Fail("correspondence", "C12:model:"+strings.SplitN(diff, "[", 2)[0], "model and code disagree: "+diff, map[string]any{"case": replay(), "model_request": req})
@@ -586,6 +603,21 @@ func load(pool, branch, obj, lbl int) StoreOp {
 func del(pool, branch, lbl int, objs ...int) StoreOp {
 	return StoreOp{Kind: "delete", Pool: pool, Branch: branch, Objs: objs, Lbl: lbl}
 }
+func compact(pool, branch, lbl, newObj int, objs ...int) StoreOp {
+	return StoreOp{Kind: "compact", Pool: pool, Branch: branch, Lbl: lbl, Obj: newObj, Objs: objs}
+}
+func revert(pool, branch, lbl, commit int) StoreOp {
+	return StoreOp{Kind: "revert", Pool: pool, Branch: branch, Lbl: lbl, Parent: commit}
+}
+func merge(pool, child, parent, lbl int) StoreOp {
+	return StoreOp{Kind: "merge", Pool: pool, Branch: child, Name: parent, Lbl: lbl}
+}
+func delWhere(pool, branch, lbl, key int) StoreOp {
+	return StoreOp{Kind: "deleteWhere", Pool: pool, Branch: branch, Lbl: lbl, Obj: key}
+}
+func addVec(pool, branch, lbl int, objs ...int) StoreOp {
+	return StoreOp{Kind: "addVectors", Pool: pool, Branch: branch, Lbl: lbl, Objs: objs}
+}
 func createPool(lbl, name int) StoreOp { return StoreOp{Kind: "createPool", Lbl: lbl, Name: name} }
 func renamePool(pool, name int) StoreOp {
 	return StoreOp{Kind: "renamePool", Pool: pool, Name: name}
@@ -619,6 +651,10 @@ func c12Fixed() []*c12Case {
 		mk("rename vs remove", []StoreOp{renamePool(1, 2)}, []StoreOp{removePool(1)}),
 		mk("three loads", []StoreOp{load(1, 0, 3, 103)}, []StoreOp{load(1, 0, 4, 104)}, []StoreOp{load(1, 0, 5, 105)}),
 		mk("two deletes of one object vs remove of the pool", []StoreOp{del(1, 0, 103, 1)}, []StoreOp{del(1, 0, 104, 1)}, []StoreOp{removePool(1)}),
+		mk("compact vs delete of a source object", []StoreOp{compact(1, 0, 103, 3, 1, 2)}, []StoreOp{del(1, 0, 104, 1)}),
+		mk("revert vs load", []StoreOp{revert(1, 0, 103, 102)}, []StoreOp{load(1, 0, 3, 104)}),
+		mk("merge into main vs load on main", []StoreOp{createBranch(1, 1, 101), load(1, 1, 3, 103), merge(1, 1, 0, 104)}, []StoreOp{load(1, 0, 4, 105)}),
+		mk("delete-where vs load; vector add vs delete", []StoreOp{delWhere(1, 0, 103, 1), addVec(1, 0, 105, 2)}, []StoreOp{load(1, 0, 3, 104), del(1, 0, 106, 2)}),
 		mk("two loads each", []StoreOp{load(1, 0, 3, 103), load(1, 0, 5, 105)}, []StoreOp{load(1, 0, 4, 104), del(1, 0, 106, 4)}),
 	}
 }
@@ -639,6 +675,7 @@ func c12Random(c *Ctx) *c12Case {
 		}
 	}
 	nclients := 2 + r.Intn(3)
+	extra := r.Intn(3) == 0 // also merge / delete-where / vector add (not modelled: oracles only)
 	nextObj, nextLbl := 3, 103
 	var clients [][]StoreOp
 	for k := 0; k < nclients; k++ {
@@ -693,6 +730,25 @@ func c12Random(c *Ctx) *c12Case {
 				nextObj++
 				nextLbl++
 			}
+			// the commit operations beyond load / delete
+			switch y := r.Intn(24); {
+			case y == 0:
+				ops = append(ops, compact(1, 0, nextLbl, nextObj, 1, 2))
+				nextObj++
+				nextLbl++
+			case y == 1:
+				ops = append(ops, revert(1, 0, nextLbl, []int{101, 102}[r.Intn(2)]))
+				nextLbl++
+			case y == 2 && extra:
+				ops = append(ops, merge(1, 1, 0, nextLbl))
+				nextLbl++
+			case y == 3 && extra:
+				ops = append(ops, delWhere(1, branch, nextLbl, 1+r.Intn(2)))
+				nextLbl++
+			case y == 4 && extra:
+				ops = append(ops, addVec(1, 0, nextLbl, 1+r.Intn(2)))
+				nextLbl++
+			}
 		}
 		clients = append(clients, ops)
 	}
@@ -716,7 +772,7 @@ func c12Random(c *Ctx) *c12Case {
 
 func runC12(c0 *Ctx) {
 	c := &sink{c: c0}
-	c0.Rule("2–4 real lake handles over one in-memory storage.Engine with a cooperative scheduler; a case = per-client lists of 1–3 API operations (load, delete, branch create/remove, pool create/rename/remove) after a sequential setup + a schedule of storage operations; enum: all interleavings of 12 fixed conflict scenarios up to a preemption budget (preemptions before reads of immutable files are skipped); rand: random scenarios under random burst schedules; distinct = distinct (scenario, performed schedule); non-trivial = at least two clients overlap")
+	c0.Rule("2–4 real lake handles over one in-memory storage.Engine with a cooperative scheduler; a case = per-client lists of 1–3 API operations (load, delete, branch create/remove, pool create/rename/remove) after a sequential setup + a schedule of storage operations; enum: all interleavings of 16 fixed conflict scenarios (incl. compact, revert, merge, delete-where, vector add) up to a preemption budget (preemptions before reads of immutable files are skipped); rand: random scenarios under random burst schedules; distinct = distinct (scenario, performed schedule); non-trivial = at least two clients overlap")
 	if c0.Replay != nil {
 		var wc c12WarmCase
 		if json.Unmarshal(c0.Replay, &wc) == nil && wc.Warm {
